@@ -14,18 +14,18 @@ open Reduino.Lang.Bind Reduino.Gen.Bind
 
 /-- Python does not look at the order of keyword arguments -/
 theorem pyAccepts_kw_perm (sig : Sig) (n : Nat) (k1 k2 : List String) (h : k1.Perm k2) :
-    pyAccepts sig ⟨n, k1⟩ = pyAccepts sig ⟨n, k2⟩ := by
-  sorry
+    pyAccepts sig ⟨n, k1⟩ = pyAccepts sig ⟨n, k2⟩ :=
+  Reduino.Lemmas.C08.pyAccepts_kw_perm sig n k1 k2 h
 
 /-- every accepted call has, up to keyword order, a representative among the enumerated shapes -/
 theorem allShapes_complete (sig : Sig) (hn : (sig.map (·.name)).Nodup) (s : Shape) (h : pyAccepts sig s = true) :
-    ∃ s' ∈ allShapes sig, s'.npos = s.npos ∧ s'.kws.Perm s.kws := by
-  sorry
+    ∃ s' ∈ allShapes sig, s'.npos = s.npos ∧ s'.kws.Perm s.kws :=
+  Reduino.Lemmas.C08.allShapes_complete sig hn s h
 
 /-- a table that agrees has no offending row, and conversely the offending rows are the witnesses -/
 theorem tableAgrees_iff (sig : Sig) (t : Table) (h : tableAgrees sig t = true) (s : Shape) (hs : s ∈ allShapes sig)
-    (ha : pyAccepts sig s = true) : ∃ r ∈ t, r.shape = s ∧ (r.rejected = true ∨ r.unseen = []) := by
-  sorry
+    (ha : pyAccepts sig s = true) : ∃ r ∈ t, r.shape = s ∧ (r.rejected = true ∨ r.unseen = []) :=
+  Reduino.Lemmas.C08.tableAgrees_iff sig t h s hs ha
 
 theorem bind_Led_init : tableAgrees sig_Led_init table_Led_init = true := by decide +kernel
 theorem bind_Led_blink : tableAgrees sig_Led_blink table_Led_blink = true := by decide +kernel
